@@ -84,9 +84,12 @@ fn ismatch(line: &str) -> String {
 /// `#P pat.. #Q ?path..` -> `#T rows..` (all patterns are regexes)
 fn oracle(line: &str) -> String {
     let secs = sections(line);
-    let pats: Vec<&str> = section(&secs, "P").into_iter().map(|p| &p[1..]).collect();
-    let paths: Vec<String> = section(&secs, "Q").into_iter().map(|p| p[1..].to_owned()).collect();
-    let ops: Vec<_> = pats.iter().map(|p| (true, false, *p)).collect();
+    // U+2423 stands for a space inside a pattern or path (names of the real
+    // benchmark binary contain spaces: `Pair<u8, u8>`, `(1, 2)`).
+    let unsp = |s: &str| s.replace('\u{2423}', " ");
+    let pats: Vec<String> = section(&secs, "P").into_iter().map(|p| unsp(&p[1..])).collect();
+    let paths: Vec<String> = section(&secs, "Q").into_iter().map(|p| unsp(&p[1..])).collect();
+    let ops: Vec<_> = pats.iter().map(|p| (true, false, p.as_str())).collect();
     format!("#T {}", truth_table(&ops, &paths))
 }
 
